@@ -21,7 +21,7 @@ echo "-- build + existing tests with the change:"
 go build ./... && rm $WT/$place/zz_seed_demo_test.go && go test -count=1 ./... 2>&1 | grep -v "^ok\|no test files" | head; echo "   (suite rc=$?)"
 cp $D/demo_test.go $WT/$place/zz_seed_demo_test.go
 echo "-- demo with the change:"; (eval "$run" 2>&1 | tail -6)
-cd /verif
+cd ${VERIF_HOME:-/verif}
 rm -f $WT/$place/zz_seed_demo_test.go
 OUT=/tmp/wt/seedout.$$; mkdir -p $OUT
 for id in "$@"; do
